@@ -22,7 +22,8 @@
     data object has been created and not finalized. *)
 From Coq Require Import List ZArith Bool Lia Arith.
 Import ListNotations.
-From TI Require Import model.Iter model.IterFin proofs.IterFinalProofs proofs.IterFinRaiseProofs
+From TI Require Import model.Iter model.IterFin model.IterReent model.IterSession
+     proofs.IterFinalProofs proofs.IterFinRaiseProofs proofs.IterReentProofs proofs.IterSessionProofs
      proofs.IterFinalExamples lib.Eff lib.EffSound lib.EffRun gen.Skeletons proofs.SkelC10 proofs.SkelC10Extra.
 Open Scope Z_scope.
 
@@ -266,6 +267,128 @@ Theorem C10_del_exactly_once :
     fin_calls g1 = 1%nat /\ finalized g1 = true /\ del_data fr g1 = (g1, false).
 Proof. exact del_exactly_once. Qed.
 Print Assumptions C10_del_exactly_once.
+
+(** ** Part 1c: close() called from inside [_render_] (re-entrant)
+
+    [IterReent] (model/IterReent.v): the renderable [render2] reports, per invocation,
+    whether it called [iterator.close()] while rendering.  The generator is executing at
+    that moment, so [self._iterator.close()] raises ValueError before anything changed:
+    [nested_close] leaves the state alone; whether the ValueError propagates (the render
+    fails) or is swallowed (a frame is returned) is part of [render2]'s result.  For every
+    [render2] — nested calls at any set of renders, any reaction — and every history. *)
+
+(** the machine with the hook at the point of the nested call is [Iter] run on what the
+    renderable returns: every theorem of Part 1 applies with [render := render1 render2] *)
+Theorem C10_rrun_run :
+  forall RS render2 n term ops (s : state RS),
+    rrun RS render2 n term (nested_close RS) s ops = run RS (render1 RS render2) n term s ops.
+Proof. exact rrun_run. Qed.
+Print Assumptions C10_rrun_run.
+
+Theorem C10_rtrace_trace :
+  forall RS render2 n term ops (s : state RS),
+    rtrace RS render2 n term (nested_close RS) s ops = trace RS (render1 RS render2) n term s ops.
+Proof. exact rtrace_trace. Qed.
+Print Assumptions C10_rtrace_trace.
+
+Theorem C10_reent_finalize_at_most_once :
+  forall RS render2 n term c rs0 s ops,
+    mk RS n term c rs0 = inl s ->
+    (fin_calls (gh (rrun RS render2 n term (nested_close RS) s ops)) <= 1)%nat.
+Proof. exact reent_finalize_at_most_once. Qed.
+Print Assumptions C10_reent_finalize_at_most_once.
+
+Theorem C10_reent_finalized_iff_closed :
+  forall RS render2 n term c rs0 s ops,
+    mk RS n term c rs0 = inl s ->
+    let s' := rrun RS render2 n term (nested_close RS) s ops in
+    owns (gh s') = c_owns c /\
+    (closed s' = true -> c_owns c = true -> finalized (gh s') = true /\ fin_calls (gh s') = 1%nat) /\
+    (closed s' = true -> c_owns c = false -> finalized (gh s') = false /\ fin_calls (gh s') = 0%nat) /\
+    (closed s' = false -> finalized (gh s') = false /\ fin_calls (gh s') = 0%nat).
+Proof. exact reent_finalized_iff_closed. Qed.
+Print Assumptions C10_reent_finalized_iff_closed.
+
+Theorem C10_reent_no_render_on_finalized :
+  forall RS render2 n term c rs0 s ops,
+    mk RS n term c rs0 = inl s ->
+    Forall (fun rc => rc_finalized rc = false) (log (gh (rrun RS render2 n term (nested_close RS) s ops))).
+Proof. exact reent_no_render_on_finalized. Qed.
+Print Assumptions C10_reent_no_render_on_finalized.
+
+(** a [next] on an open iterator during which the renderable did or did not call
+    [close()], after any history: either the render failed — [next] raises, the iterator is
+    properly closed, owned data finalized by exactly one call, a caller's data untouched —
+    or a frame comes out and the iterator is still open, nothing finalized *)
+Theorem C10_reent_next_outcome :
+  forall RS render2 n term c rs0 s ops,
+    mk RS n term c rs0 = inl s ->
+    let s0 := rrun RS render2 n term (nested_close RS) s ops in
+    let s' := fst (rstep RS render2 n term (nested_close RS) s0 Next) in
+    let x := snd (rstep RS render2 n term (nested_close RS) s0 Next) in
+    closed s0 = false ->
+    (is_frame x = true /\ closed s' = false /\ finalized (gh s') = false /\ fin_calls (gh s') = 0%nat) \/
+    (is_end x = true /\ closed s' = true /\
+     (if c_owns c then finalized (gh s') = true /\ fin_calls (gh s') = 1%nat
+      else finalized (gh s') = false /\ fin_calls (gh s') = 0%nat)).
+Proof. exact reent_next_outcome. Qed.
+Print Assumptions C10_reent_next_outcome.
+
+(** ** Part 1d: sessions — several iterators, one after the other, over ONE render data object
+
+    [IterSession] (model/IterSession.v): [SMake c] = [_from_render_data_(..., D, ...,
+    finalize = c_owns c)] (the session's previous iterator is dropped first), [SOp o] an
+    operation on the current iterator, [SOwnerFinalize] = [D.finalize()] by the owner.
+    The constructor refuses finalized data (ValueError) whatever [finalize] is
+    ([guard_code]).  [well_formed]: the owner finalizes only while no iterator is working
+    on the data.  [_animate_] / [draw()] are instances (non-owning iterator, then the
+    owner's finalize).  For every renderable and every session. *)
+
+Theorem C10_session_finalize_at_most_once :
+  forall RS render n term l r rs0,
+    (fin_calls (data_of RS (srun RS render n term guard_code (fresh_sess RS r rs0) l)) <= 1)%nat.
+Proof. exact session_finalize_at_most_once. Qed.
+Print Assumptions C10_session_finalize_at_most_once.
+
+(** no frame is ever rendered with finalized data, however many iterators — owning or not —
+    are made from the data, before or after its finalization *)
+Theorem C10_session_no_render_on_finalized :
+  forall RS render n term l r rs0,
+    well_formed RS render n term guard_code (fresh_sess RS r rs0) l = true ->
+    Forall (fun rc => rc_finalized rc = false)
+           (log (data_of RS (srun RS render n term guard_code (fresh_sess RS r rs0) l))).
+Proof. exact session_no_render_on_finalized. Qed.
+Print Assumptions C10_session_no_render_on_finalized.
+
+(** creating an iterator from finalized data raises, in both ownership modes *)
+Theorem C10_guard_refuses_finalized :
+  forall RS n term g r c rs0,
+    finalized g = true -> exists e, mk_on RS n term guard_code g r c rs0 = inr e.
+Proof. exact guard_refuses_finalized. Qed.
+Print Assumptions C10_guard_refuses_finalized.
+
+(** once the data is finalized, the rest of the session makes no iterator, yields no frame,
+    renders nothing *)
+Theorem C10_session_after_finalization :
+  forall RS render n term l l' r rs0,
+    well_formed RS render n term guard_code (fresh_sess RS r rs0) (l ++ l') = true ->
+    finalized (data_of RS (srun RS render n term guard_code (fresh_sess RS r rs0) l)) = true ->
+    log (data_of RS (srun RS render n term guard_code (fresh_sess RS r rs0) (l ++ l'))) =
+    log (data_of RS (srun RS render n term guard_code (fresh_sess RS r rs0) l)) /\
+    finalized (data_of RS (srun RS render n term guard_code (fresh_sess RS r rs0) (l ++ l'))) = true /\
+    Forall (fun y => y <> SMade /\ forall f, y <> SOut (OFrame f))
+           (strace RS render n term guard_code (srun RS render n term guard_code (fresh_sess RS r rs0) l) l').
+Proof. exact session_after_finalization. Qed.
+Print Assumptions C10_session_after_finalization.
+
+(** any number of non-owning iterators leave the caller's data un-finalized *)
+Theorem C10_session_caller_owned_untouched :
+  forall RS render n term l r rs0,
+    Forall (fun o => match o with SMake c => c_owns c = false | SOp _ => True | SOwnerFinalize => False end) l ->
+    finalized (data_of RS (srun RS render n term guard_code (fresh_sess RS r rs0) l)) = false /\
+    fin_calls (data_of RS (srun RS render n term guard_code (fresh_sess RS r rs0) l)) = 0%nat.
+Proof. exact session_caller_owned_untouched. Qed.
+Print Assumptions C10_session_caller_owned_untouched.
 
 (** ** Part 2: control-flow skeletons *)
 
